@@ -34,8 +34,6 @@ def _generic_rules():
         Rule("R3", "log :: info ! $a ;", "", why="logging dropped"),
         Rule("R3", "log :: warn ! $a ;", "", why="logging dropped"),
         Rule("R3", "log :: error ! $a ;", "", why="logging dropped"),
-        # a `bail!` a change adds where the unit has no rule of its own for it (units whose errors carry content translate bail! themselves, earlier)
-        Rule("R3", "bail ! $a", "return Err ( VErr )", why="bail! -> return Err (error text dropped)"),
     ]
 
 
